@@ -18,6 +18,10 @@ f,det=sys.argv[1:3]
 m=json.load(open(f))
 c=m.setdefault('confirmed',{})
 old=c.get('quick_check_result','')
+if det.startswith('PATCH-FAILED'):
+    # the patch was made for an earlier HEAD and no longer applies: keep the
+    # recorded result
+    sys.exit(0)
 if 'first_quick_check_result' not in c: c['first_quick_check_result']=old
 c['quick_check_result']=det
 if c['first_quick_check_result'].startswith('MISSED') and det.startswith('DETECTED'):
